@@ -212,6 +212,26 @@ add_offset_saturate (pixman_fixed_t v, pixman_fixed_t offset)
     return (pixman_fixed_t)sum;
 }
 
+/* The x coordinate of an edge end point plus the drawing offset,
+ * saturated two pixels short of the ends of the 16.16 range: the
+ * rasterisers still add a sub-pixel sample offset to the edge position
+ * before they clip it against the image.
+ */
+static pixman_fixed_t
+saturate_edge_x (pixman_fixed_t x, pixman_fixed_t offset)
+{
+    pixman_fixed_48_16_t sum = (pixman_fixed_48_16_t)x + offset;
+    pixman_fixed_48_16_t max = pixman_max_fixed_48_16 - 2 * pixman_fixed_1;
+    pixman_fixed_48_16_t min = pixman_min_fixed_48_16 + 2 * pixman_fixed_1;
+
+    if (sum > max)
+	return (pixman_fixed_t)max;
+    if (sum < min)
+	return (pixman_fixed_t)min;
+
+    return (pixman_fixed_t)sum;
+}
+
 /*
  * Initialize one edge structure given a line, starting y value
  * and a pixel offset for the line
@@ -247,9 +267,9 @@ pixman_line_fixed_edge_init (pixman_edge_t *            e,
      * unsigned arithmetic, where that is defined.
      */
     pixman_edge_init (e, n, y,
-                      add_offset_saturate (top->x, x_off_fixed),
+                      saturate_edge_x (top->x, x_off_fixed),
                       (pixman_fixed_t)((uint32_t)top->y + (uint32_t)y_off_fixed),
-                      add_offset_saturate (bot->x, x_off_fixed),
+                      saturate_edge_x (bot->x, x_off_fixed),
                       (pixman_fixed_t)((uint32_t)bot->y + (uint32_t)y_off_fixed));
 }
 
